@@ -83,6 +83,22 @@ def run_one(ck, prog):
         ck.ob("C15.1", f"{label}|err-edge", bool(errs), fn=fname, detail="no Err edge found for the call's result")
         retry = [e for e in tr if any(e.src in cfg.reachable_from(x.dst) for x in errs) and cb in cfg.reachable_from(e.dst)]
         ck.ob("C15.1", f"{label}|eintr-retries", bool(retry), fn=fname, site=ctx.site(cb), detail="an interrupted call (EINTR) must be retried: no matches_errno(EINTR) == true edge leads back to the call")
+        # ... and ONLY retried: from the EINTR edge no return is reachable without issuing the call again (falling through to the
+        # "nothing was transferred -> end of stream" test would turn an interruption into a silent, short Ok)
+        ends = []
+        # the loop guard(s) dominating the call are re-evaluated on state the EINTR round did not change: their exit edges are not
+        # counted (`while !buf.is_empty()` was true before the interrupted call and still is)
+        guard_exits = set()
+        for sb in cfg.live_blocks():
+            if cfg.term(sb)["k"] == "switch" and cfg.dominates(sb, cb) and cfg.in_cycle(sb):
+                for e2 in cfg.succ[sb]:
+                    if cb not in cfg.reachable_from(e2.dst, avoid={sb}):
+                        guard_exits.add((e2.src, e2.dst))
+        for e in retry:
+            r0 = cfg.reachable_from(e.dst, avoid={cb}, avoid_edges=guard_exits)
+            ends += [rb for rb in cfg.return_blocks() if rb in r0]
+        ck.ob("C15.1", f"{label}|eintr-never-ends-the-transfer", bool(retry) and not ends, fn=fname, site=ctx.site(cb),
+              detail="after EINTR the function can return without repeating the call: an interrupted read looks like end-of-stream (Ok with only the bytes so far), an interrupted write like completion")
         cut = {(e.src, e.dst) for e in tr}
         for x in errs:
             r = cfg.reachable_from(x.dst, avoid_edges=cut)
